@@ -62,6 +62,9 @@ def execute_case(steps, probe_seed):
                         # the declaring call refused: the fault never entered the specification
                         break
         handed = seam.reached - info["reached_before_fault"]
+        fi = [i for i, st in enumerate(steps) if st.get("fault")]
+        if fault_seen and rejected_at is None and not any(st["op"] == "trigger" for st in steps[fi[0]:]):
+            return {"outcome": "no-trigger"}  # (a minimisation candidate that lost its trigger) nothing to judge
         if not fault_seen:
             # control run
             return {"outcome": "control-ok" if seam.reached > 0 else "control-no-handoff"}
@@ -170,7 +173,14 @@ def catalogue(ops, sp, cls):
     out.append(("foreign_in_constraint", "path", "add", {"op": "subject_to", "expr": ["<=", ["i", x0, 0], ["s", "?f"]]}))
     out.append(("foreign_in_constraint", "boundary", "add", {"op": "subject_to", "expr": ["<=", ["at_tf", ["i", xl, 0]], ["s", "?f"]]}))
     out.append(("foreign_in_objective", "-", "add", {"op": "add_objective", "expr": ["*", ["s", "?f"], ["at_tf", ["i", x0, 0]]]}))
-    out.append(("constant_false_constraint", "-", "add", {"op": "subject_to", "expr": ["<=", ["mx", 1.0], ["c", 0.0]]}))
+    out.append(("constant_false_constraint", "literal", "add", {"op": "subject_to", "expr": ["<=", ["mx", 1.0], ["c", 0.0]]}))
+    # constant only once the horizon placeholders have been substituted (fixed t0 / T)
+    if sp.T[0] == "num":
+        out.append(("constant_false_constraint", "T", "add", {"op": "subject_to", "expr": [">=", ["T"], ["c", float(sp.T[1]) + 1.0]]}))
+    if sp.t0[0] == "num":
+        out.append(("constant_false_constraint", "t0", "add", {"op": "subject_to", "expr": [">=", ["t0"], ["c", float(sp.t0[1]) + 1.0]]}))
+    if sp.T[0] == "num" and sp.t0[0] == "num":
+        out.append(("constant_false_constraint", "tf", "add", {"op": "subject_to", "expr": ["<=", ["tf"], ["c", float(sp.t0[1]) + float(sp.T[1]) - 0.5]]}))
     if cls in ("SingleShooting", "MultipleShooting") and not sp.names("algebraic") and not discrete:
         out.append(("alg_with_explicit_scheme", "-", "add2", [{"op": "sym", "name": "zF", "kind": "algebraic"},
                                                               {"op": "add_alg", "expr": ["-", ["s", "zF"], ["i", x0, 0]]}]))
